@@ -1245,6 +1245,25 @@ func (x *Exec) Run(b *Backend, e E, genIds [][]byte) E {
 					k = toInt(content[1])
 				}
 				return os.WriteFile(path, []byte(badFiles[k%len(badFiles)]), 0o644)
+			case "gen":
+				// n generated documents; the k-th repeats the id of the first one or carries a malformed id
+				n, k, kind := toInt(content[1]), toInt(content[2]), content[3].(string)
+				var sb strings.Builder
+				sb.WriteString("[")
+				for i := 0; i < n; i++ {
+					if i > 0 {
+						sb.WriteString(",")
+					}
+					id := bulkId(i)
+					if i == k && kind == "dup" {
+						id = bulkId(0)
+					} else if i == k {
+						id = "not-a-uuid"
+					}
+					fmt.Fprintf(&sb, `{"_id":%q,"x":%d,"s":"doc %d"}`, id, i%7, i)
+				}
+				sb.WriteString("]\n")
+				return os.WriteFile(path, []byte(sb.String()), 0o644)
 			case "docs":
 				var objs []interface{}
 				for _, d := range toList(content[1]) {
